@@ -2,14 +2,10 @@
    The tree of pathStep nodes is flattened (collapse_lists), then the while
    loop of visitObjectPath (path_loop) pairs names with index steps.          *)
 From Coq Require Import NArith ZArith List String Bool Lia.
-From V Require Import Model.PatternSyntax Proofs.PatternNumbers Proofs.PatternLit.
+From V Require Import Model.PatternSyntax Spec.PatternSpec Proofs.PatternR Proofs.PatternNumbers Proofs.PatternLit.
 Import ListNotations.
 Open Scope N_scope.
 
-Fixpoint opc_steps (c : opc) : list pstep :=
-  match c with OStep s => [s] | OPathStep l r => opc_steps l ++ [r] end.
-Definition path_steps (p : objpath) : list pstep :=
-  match op_rest p with Some c => opc_steps c | None => [] end.
 
 (* the value a path step visits to *)
 Definition step_val (s : pstep) : vres :=
@@ -49,12 +45,12 @@ Proof.
   intros [n|i] H; cbn [wf_pstep] in H; unfold kind_in in H; apply andb_true_iff in H; destruct H as [Hk Hok].
   - destruct n as [k s]. cbn [tk] in Hk. destruct k; cbn in Hk; try discriminate.
     + unfold token_ok in Hok. cbn [tk tx] in Hok.
-      unfold v_pstep. rewrite (string_tok_visit (Tok KString s) eq_refl Hok). reflexivity.
+      unfold PatternSyntax.v_pstep. rewrite (string_tok_visit (Tok KString s) eq_refl Hok). reflexivity.
     + reflexivity.
   - destruct i as [k s]. cbn [tk] in Hk. unfold token_ok in Hok. cbn [tk tx] in Hok.
     destruct k; cbn in Hk; try discriminate.
-    + destruct (py_int_intneg s Hok) as [z Hz]. unfold v_pstep, visit_terminal, step_val. cbn [tk tx]. rewrite Hz. reflexivity.
-    + destruct (py_int_intpos s Hok) as [z Hz]. unfold v_pstep, visit_terminal, step_val. cbn [tk tx]. rewrite Hz. reflexivity.
+    + destruct (py_int_intneg s Hok) as [z Hz]. unfold PatternSyntax.v_pstep, PatternSyntax.visit_terminal, step_val. cbn [tk tx]. rewrite Hz. reflexivity.
+    + destruct (py_int_intpos s Hok) as [z Hz]. unfold PatternSyntax.v_pstep, PatternSyntax.visit_terminal, step_val. cbn [tk tx]. rewrite Hz. reflexivity.
     + reflexivity.
 Qed.
 
@@ -62,7 +58,7 @@ Lemma v_opc_ok : forall c, wf_opc c = true ->
   exists v, v_opc c = Ok v /\ collapse_lists [v] = map step_val (opc_steps c) /\ v <> VNone.
 Proof.
   induction c as [s|l IH r]; intros H.
-  - cbn [wf_opc] in H. exists (step_val s). cbn [v_opc opc_steps map]. split; [apply v_pstep_ok; exact H|].
+  - cbn [wf_opc] in H. exists (step_val s). cbn [PatternSyntax.v_opc opc_steps map]. split; [apply v_pstep_ok; exact H|].
     pose proof (step_val_not_list s) as Hn. split.
     + apply collapse_one. destruct (step_val s); tauto.
     + intros E. rewrite E in Hn. exact Hn.
@@ -70,7 +66,7 @@ Proof.
     destruct (IH Hl) as [vl [El [Cl Nl]]].
     exists (VList (collapse_lists [vl; step_val r])).
     split; [|split; [|discriminate]].
-    + cbn [v_opc]. rewrite El, (v_pstep_ok r Hr).
+    + cbn [PatternSyntax.v_opc]. rewrite El, (v_pstep_ok r Hr).
       unfold visit_children. cbn [seq_results bind].
       destruct vl; try (exfalso; apply Nl; reflexivity); reflexivity.
     + rewrite collapse_vlist.
@@ -100,7 +96,7 @@ Proof.
   cbn [tk] in Hk. destruct k; cbn in Hk; try discriminate.
   - unfold token_ok in Hok. cbn [tk tx] in Hok.
     rewrite (string_tok_visit (Tok KString s) eq_refl Hok).
-    cbn. unfold str_const, print_string_const. cbn. rewrite app_nil_r.
+    cbn. unfold PatternSyntax.str_const, print_string_const. cbn. rewrite app_nil_r.
     pose proof (quoted_text s Hok) as Q. cbn in Q. rewrite Q. reflexivity.
   - reflexivity.
 Qed.
@@ -116,17 +112,17 @@ Lemma v_path_ok : forall p, wf_path p = true -> v_path p = (ap <- sv_path p ;; O
 Proof.
   intros [ty first rest] H. unfold wf_path in H. cbn [op_type op_first op_rest] in H.
   apply andb_true_iff in H. destruct H as [H Hr]. apply andb_true_iff in H. destruct H as [Hty Hf].
-  unfold v_path, sv_path, path_steps. cbn [op_type op_first op_rest].
+  unfold PatternSyntax.v_path, sv_path, path_steps. cbn [op_type op_first op_rest].
   rewrite (v_type_ok ty Hty), (v_first_ok first Hf).
   destruct rest as [c|].
   - destruct (v_opc_ok c Hr) as [v [Ev [Cv Nv]]]. cbn [app]. rewrite Ev.
     unfold visit_children. cbn [seq_results bind tokv aggregate].
-    unfold m_object_path. cbn [skipn].
+    unfold PatternSyntax.m_object_path. cbn [skipn].
     rewrite (collapse_cons (VComp (ABasic (tx first))) [v]), Cv. cbn [collapse_lists app].
     destruct (path_loop _) as [pp|e]; [|reflexivity]. cbn [bind child nth_error as_tok].
     destruct (create_components pp); reflexivity.
   - cbn [app]. unfold visit_children. cbn [seq_results bind tokv aggregate].
-    unfold m_object_path. cbn [skipn collapse_lists map].
+    unfold PatternSyntax.m_object_path. cbn [skipn collapse_lists map].
     destruct (path_loop _) as [pp|e]; [|reflexivity]. cbn [bind child nth_error as_tok].
     destruct (create_components pp); reflexivity.
 Qed.
@@ -134,58 +130,14 @@ Qed.
 (* ------------------------------------------------------------------ *)
 (** * The property path, explicitly *)
 
-Inductive pending := PName (n : ustring) | PStr (body : ustring).
 
-Definition pend_of_key (n : token) : pending :=
-  match tk n with KString => PStr (slice_1_m1 (tx n)) | _ => PName (tx n) end.
 Definition pend_val (c : pending) : vres :=
   match c with PName n => VComp (ABasic n) | PStr b => VConst (CString b false) end.
-Definition emit (c : pending) : acomp := match c with PName n => ABasic n | PStr b => ABasic b end.
-Definition idx_name (c : pending) : ustring :=
-  match c with PName n => n | PStr b => str_const (CString b false) end.
-Definition idx_of (i : token) : aindex :=
-  match tk i with
-  | KASTERISK => IdxStr (tx i)
-  | _ => IdxInt (match py_int (tx i) with Some z => z | None => 0%Z end)
-  end.
 
-Fixpoint comps (cur : pending) (l : list pstep) : list acomp :=
-  match l with
-  | [] => [emit cur]
-  | IndexStep i :: r =>
-      AList (idx_name cur) (idx_of i) ::
-      match r with
-      | [] => []
-      | KeyStep n :: r' => comps (pend_of_key n) r'
-      | IndexStep _ :: _ => []
-      end
-  | KeyStep n :: r => emit cur :: comps (pend_of_key n) r
-  end.
 
-(* the side conditions on a path (beyond wf):
-   - no index step directly after an index step   (C10-index-after-index-attributeerror)
-   - no [*] directly after a quoted key step      (C10-quoted-key-star-attributeerror)
-   - a quoted key step that is not followed by an integer index contains a
-     hyphen or is an identifier                   (C10-quoted-key-printed-unquoted) *)
-Definition emit_ok (c : pending) : bool :=
-  match c with PName _ => true | PStr b => mem_N c_hyphen b || ident_ok b end.
-Definition idx_ok (c : pending) (i : token) : bool :=
-  match c with PName _ => true | PStr _ => negb (tkind_eqb (tk i) KASTERISK) end.
+(* the side condition on a path (beyond wf): no index step directly after an
+   index step (finding C10-index-after-index-attributeerror) *)
 
-Fixpoint comps_sem (cur : pending) (l : list pstep) : bool :=
-  match l with
-  | [] => emit_ok cur
-  | IndexStep i :: r =>
-      idx_ok cur i &&
-      match r with
-      | [] => true
-      | KeyStep n :: r' => comps_sem (pend_of_key n) r'
-      | IndexStep _ :: _ => false
-      end
-  | KeyStep n :: r => emit_ok cur && comps_sem (pend_of_key n) r
-  end.
-
-Definition path_sem (p : objpath) : bool := comps_sem (PName (tx (op_first p))) (path_steps p).
 
 Lemma step_val_key : forall n, step_val (KeyStep n) = pend_val (pend_of_key n).
 Proof. intros n. unfold step_val, pend_of_key. destruct (tk n); reflexivity. Qed.
@@ -197,30 +149,28 @@ Lemma loop_comps : forall l cur, comps_sem cur l = true ->
   (pp <- path_loop (pend_val cur :: map step_val l) ;; create_components pp) = Ok (comps cur l).
 Proof.
   fix IH 1. intros l cur H. destruct l as [|s r].
-  - cbn [map path_loop bind create_components]. rewrite create_emit. reflexivity.
+  - cbn [map PatternSyntax.path_loop bind create_components]. rewrite create_emit. reflexivity.
   - destruct s as [n|i].
     + (* key step: emit cur, continue *)
-      cbn [comps_sem] in H. apply andb_true_iff in H. destruct H as [_ H].
+      cbn [comps_sem] in H.
       cbn [map comps]. rewrite step_val_key.
       specialize (IH r (pend_of_key n) H).
       assert (E : path_loop (pend_val cur :: pend_val (pend_of_key n) :: map step_val r) =
                   (r0 <- path_loop (pend_val (pend_of_key n) :: map step_val r) ;; Ok (pend_val cur :: r0))).
-      { cbn [path_loop]. destruct (pend_of_key n); reflexivity. }
+      { cbn [PatternSyntax.path_loop]. destruct (pend_of_key n); reflexivity. }
       rewrite E. destruct (path_loop (pend_val (pend_of_key n) :: map step_val r)) as [pp|e]; [|discriminate].
       cbn [bind] in IH |- *. cbn [create_components]. rewrite create_emit. cbn [bind]. rewrite IH. reflexivity.
     + (* index step: merge with cur *)
-      cbn [comps_sem] in H. apply andb_true_iff in H. destruct H as [Hi H].
+      cbn [comps_sem] in H.
       cbn [map comps].
       assert (E : path_loop (pend_val cur :: step_val (IndexStep i) :: map step_val r) =
                   (r0 <- path_loop (map step_val r) ;; Ok (VComp (AList (idx_name cur) (idx_of i)) :: r0))).
-      { unfold step_val, idx_of. destruct cur as [n|b]; cbn [idx_ok] in Hi.
-        - destruct (tk i); cbn [path_loop pend_val property_name bind idx_name];
-            destruct (path_loop (map step_val r)); reflexivity.
-        - destruct (tk i); try discriminate Hi; cbn [path_loop pend_val py_str bind idx_name];
+      { unfold step_val, idx_of. destruct cur as [n|b];
+          destruct (tk i); cbn [PatternSyntax.path_loop pend_val PatternSyntax.py_str bind idx_name star_quoted repaired];
             destruct (path_loop (map step_val r)); reflexivity. }
       rewrite E. clear E.
       destruct r as [|s' r'].
-      * cbn [map path_loop bind create_components create_component]. reflexivity.
+      * cbn [map PatternSyntax.path_loop bind create_components create_component]. reflexivity.
       * destruct s' as [n'|i']; [|discriminate H].
         specialize (IH r' (pend_of_key n') H).
         cbn [map]. rewrite step_val_key.
@@ -228,8 +178,6 @@ Proof.
         cbn [bind] in IH |- *. cbn [create_components create_component]. cbn [bind]. rewrite IH. reflexivity.
 Qed.
 
-Definition sv_path_v (p : objpath) : apath :=
-  APath (tx (op_type p)) (comps (PName (tx (op_first p))) (path_steps p)).
 
 Lemma sv_path_ok : forall p, path_sem p = true -> sv_path p = Ok (sv_path_v p).
 Proof.
